@@ -107,6 +107,10 @@ type SchedGenParams struct {
 	AllowProb   int
 	CondProb    int
 	MaxDepth    int
+	// NoTrueCondWithDeps: a stage that waits for dependencies never gets a `true` condition.
+	// (The scheduler re-evaluates the condition of every waiting stage on every pass, by forking
+	// the program; engines that let much simulated time pass would fork thousands of times.)
+	NoTrueCondWithDeps bool
 }
 
 // GenGraph draws a DAG. Stages get a hidden topological index; edges only go
@@ -150,7 +154,7 @@ func GenGraph(ch *Choices, p SchedGenParams, prefix string, depth int) *GraphSpe
 			s.Allow = true
 		}
 		if ch.Bool(p.CondProb, 100, "has-cond") {
-			if ch.Bool(2, 3, "cond-false") {
+			if ch.Bool(2, 3, "cond-false") || (p.NoTrueCondWithDeps && len(s.Deps) > 0) {
 				s.Cond = "false"
 			} else {
 				s.Cond = "true"
